@@ -7,11 +7,13 @@ CONSTANTS
   MaxBg = 2
   MaxLosses = 2
   MaxLogins = 2
+  Env = {"exec", "peerin", "userdisc", "midburst"}
   MaxConnFail = 1
   FixAutoJoin = TRUE
   FixDistStopped = TRUE
   FixWatchdogStopped = TRUE
   FixTimersStopped = TRUE
+  FixStaleInit = TRUE
   FixSelfAwait = TRUE
   FixQueueOnce = TRUE
 INVARIANT TypeOK
